@@ -341,7 +341,7 @@ package parser
 //@   requires [recv] l != nil
 //@   requires [t3-callback-position] startL >= 1 && startC >= 0
 //@   ensures [appended] {C14} len(l.Errors) == old(len(l.Errors)) + 1 && forall(i, 0, old(len(l.Errors)), l.Errors[i] == old(l.Errors[i]))
-//@   ensures [located] {C14} l.Errors[old(len(l.Errors))].Range.Start.Line == startL - 1 && l.Errors[old(len(l.Errors))].Range.Start.Character == startC && l.Errors[old(len(l.Errors))].Range.End.Line == startL - 1 && l.Errors[old(len(l.Errors))].Range.End.Character >= startC && l.Errors[old(len(l.Errors))].Msg == msg
+//@   ensures [located] {C14,C18} l.Errors[old(len(l.Errors))].Range.Start.Line == startL - 1 && l.Errors[old(len(l.Errors))].Range.Start.Character == startC && l.Errors[old(len(l.Errors))].Range.End.Line == startL - 1 && l.Errors[old(len(l.Errors))].Range.End.Character >= startC && l.Errors[old(len(l.Errors))].Msg == msg
 //@   modifies l.Errors, elems(l.Errors)
 
 // the recogniser runs the registered error listener: SyntaxError appends to the Errors of a listener
